@@ -19,6 +19,7 @@ import (
 	"github.com/ontio/ontology-crypto/keypair"
 	"github.com/ontio/ontology/common"
 	"github.com/ontio/ontology/core/program"
+	"github.com/ontio/ontology/core/store"
 	"github.com/ontio/ontology/core/types"
 	"github.com/ontio/ontology/core/validation"
 	ontErrors "github.com/ontio/ontology/errors"
@@ -41,6 +42,19 @@ type variant struct {
 	m      int
 	addr   common.Address
 	verify []byte // verification script bytes
+	// multi-signature sets that carry MORE signatures than the threshold (the validator accepts that: it
+	// checks the first m): surplus = number of signatures after the m required ones; junk = the surplus
+	// ones are not valid member signatures over this transaction; payerOther = the fee payer is another,
+	// correctly signed account (a second signature set), the variant's account only authorises the spend
+	surplus    int
+	junk       bool
+	payerOther bool
+}
+
+// feePayer is the correctly signed single-key account that pays for the payerOther variants.
+func feePayer() variant {
+	k := txgen.Pool(txgen.ECDSAP256)[8]
+	return variant{name: "fee-payer", keys: []*txgen.Key{k}, m: 1, addr: types.AddressFromPubKey(k.Pub), verify: program.ProgramFromPubKey(k.Pub)}
 }
 
 func pushData(b []byte, form string) []byte {
@@ -124,10 +138,60 @@ func buildVariants() []variant {
 			vs = append(vs, variant{name: "multi/1of2/with-eth-key/canonical", keys: ms3, m: 1, addr: maddr3, verify: canon3})
 		}
 	}
+	// signature sets with more signatures than the threshold: every base multi-signature account above plus
+	// a 2-of-4 one, surplus m+1..n valid member signatures or junk, paid by itself or by another account
+	ms4 := []*txgen.Key{txgen.Pool(txgen.ECDSAP256)[9], txgen.Pool(txgen.ECDSAP224)[9], txgen.Pool(txgen.SM2)[9], txgen.Pool(txgen.Ed25519)[9]}
+	maddr4, err := types.AddressFromMultiPubKeys(txgen.Pubs(ms4), 2)
+	if err != nil {
+		panic(err)
+	}
+	canon4, err := program.ProgramFromMultiPubKey(txgen.Pubs(ms4), 2)
+	if err != nil {
+		panic(err)
+	}
+	base := []variant{}
+	for _, v := range vs {
+		if len(v.keys) > 1 {
+			base = append(base, v)
+		}
+	}
+	base = append(base, variant{name: "multi/2of4/canonical", keys: ms4, m: 2, addr: maddr4, verify: canon4})
+	for _, b := range base {
+		n := len(b.keys)
+		for sp := 1; sp <= n-b.m; sp++ {
+			for _, other := range []bool{true, false} {
+				// the 2-of-3 canonical account gets the full matrix, the others the payer-other column and the largest set
+				if !other && !(b.name == "multi/2of3/canonical" || sp == n-b.m) {
+					continue
+				}
+				v := b
+				v.surplus, v.payerOther = sp, other
+				v.name = fmt.Sprintf("%s/surplus-%d-valid/%s", b.name, sp, payerName(other))
+				vs = append(vs, v)
+			}
+		}
+	}
+	for bi, b := range base[:2] {
+		for _, other := range []bool{true, false} {
+			v := b
+			v.surplus, v.junk, v.payerOther = 1+bi, true, other // 1+bi = 2 on a 2-of-3 set: more signatures than keys
+			v.name = fmt.Sprintf("%s/surplus-%d-junk/%s", b.name, v.surplus, payerName(other))
+			vs = append(vs, v)
+		}
+	}
 	return vs
 }
 
+func payerName(other bool) string {
+	if other {
+		return "payer-other"
+	}
+	return "payer-self"
+}
+
 // signedTx assembles transaction bytes with hand-made signature scripts and decodes them.
+// Multi-signature sets are signed by a seeded m-subset of the members in seeded order (the validator tries
+// every unused key for each of the first m signatures), followed by the variant's surplus signatures.
 func signedTx(mt *types.MutableTransaction, signers []variant, rng *vf.RNG) (*types.Transaction, error) {
 	mt.Sigs = nil
 	tmp, err := mt.IntoImmutable()
@@ -141,33 +205,59 @@ func signedTx(mt *types.MutableTransaction, signers []variant, rng *vf.RNG) (*ty
 	sink.WriteBytes(unsigned)
 	sink.WriteVarUint(uint64(len(signers)))
 	for _, v := range signers {
-		var sigs [][]byte
-		// m signatures in the order the validator expects (key order of the script)
-		info, err := program.GetProgramInfo(v.verify)
-		if err != nil {
+		if _, err := program.GetProgramInfo(v.verify); err != nil {
 			return nil, fmt.Errorf("verify script of %s does not parse: %v", v.name, err)
 		}
-		need := v.m
-		for _, pk := range info.PubKeys {
-			if need == 0 {
-				break
+		var sigs [][]byte
+		order := rng.Perm(len(v.keys))
+		for _, ki := range order[:v.m] {
+			s, err := v.keys[ki].Sign(h[:])
+			if err != nil {
+				return nil, err
 			}
-			for _, k := range v.keys {
-				if keypair.ComparePublicKey(k.Pub, pk) {
-					s, err := k.Sign(h[:])
-					if err != nil {
+			sigs = append(sigs, s)
+		}
+		for x := 0; x < v.surplus; x++ {
+			var s []byte
+			switch {
+			case !v.junk: // a further member's valid signature
+				if s, err = v.keys[order[v.m+x]].Sign(h[:]); err != nil {
+					return nil, err
+				}
+			default:
+				switch rng.Intn(4) {
+				case 0: // the first signature once more
+					s = append([]byte{}, sigs[0]...)
+				case 1: // bytes that are no signature of anything
+					s = rng.Bytes(64 + rng.Intn(2))
+				case 2: // a member's signature over another message
+					other := sha256.Sum256(h[:])
+					if s, err = v.keys[order[0]].Sign(other[:]); err != nil {
 						return nil, err
 					}
-					sigs = append(sigs, s)
-					need--
-					break
+				default: // a valid signature by a key that is not a member
+					if s, err = txgen.Pool(txgen.ECDSAP256)[10].Sign(h[:]); err != nil {
+						return nil, err
+					}
 				}
 			}
+			sigs = append(sigs, s)
 		}
 		sink.WriteVarBytes(program.ProgramFromParams(sigs))
 		sink.WriteVarBytes(v.verify)
 	}
 	return types.TransactionFromRawBytes(sink.Bytes())
+}
+
+// clockCode is a deployable NeoVM contract whose effect is a function of the block being executed:
+// block time, ledger height and the hash of the current block go to storage and are notified.
+func clockCode() []byte {
+	a := chain.NewAsm().Push([]byte{0xc0, 0x02}).Op(neovm.DROP)
+	for _, q := range [][2]string{{"System.Runtime.GetTime", "time"}, {"System.Blockchain.GetHeight", "height"}, {"Ontology.Runtime.GetCurrentBlockHash", "hash"}} {
+		a.Syscall(q[0]).Push([]byte(q[1])).Syscall("System.Storage.GetContext").Syscall("System.Storage.Put")
+		a.Syscall(q[0]).Syscall("System.Runtime.Notify")
+	}
+	return a.Op(neovm.RET).Bytes()
 }
 
 // ---------------------------------------------------------------- child (node C)
@@ -237,7 +327,7 @@ func main() {
 		return
 	}
 	r := vf.NewRun("C02", "exploration",
-		"seeded block sequences on a solo chain: ordinary traffic (ONT/ONG transfers incl. failing ones, contract storage, EVM transfers, deploy) plus, per block, one transfer authorised by a signer VARIANT (each supported key type incl. Ethereum-type keys; alternative accepted encodings of a P-256 key; PUSHDATA1 script form; multi-signature canonical, reversed key order, with an Ethereum-type member); node A validates+executes, node B decodes bytes and AddBlocks in-process, node C does the same in a child process with restarts; every block is also executed 3x on A. distinct by (variant, block height)")
+		"seeded block sequences on a solo chain: ordinary traffic (ONT/ONG transfers incl. failing ones, contract storage, EVM transfers, deploy) plus, per block, one transfer authorised by a signer VARIANT (each supported key type incl. Ethereum-type keys; alternative accepted encodings of a P-256 key; PUSHDATA1 script form; multi-signature canonical, reversed key order, with an Ethereum-type member, 2-of-4; multi-signature sets carrying m+1..n signatures, the surplus valid or junk, paid by the account itself or by another correctly signed account), signed by a seeded member subset in seeded order; every block also carries an ONT transfer between holders (unbound ONG depends on block time) and a call of a contract that stores and notifies block time, height and current block hash; in a seeded 65% of the rounds node A first executes (ExecuteBlock only) one or two ABANDONED proposals of the same height (same transactions with another timestamp and/or consensus data, a permutation, a subset, an empty block), sometimes one more between the re-executions; nodes B and C never see them; node A validates+executes, node B decodes bytes and AddBlocks in-process, node C does the same in a child process with restarts; every block is also executed 3x on A. distinct by (variant, block height)")
 	scratch := vf.Scratch("c02")
 	defer os.RemoveAll(scratch)
 	rng := vf.NewRNG(vf.Seed())
@@ -258,7 +348,73 @@ func main() {
 	bAlive := true
 	sink := w.Accts[0].Address
 
-	commit := func(h int, txs []*types.Transaction, label string) bool {
+	// rival builds a proposal of the height A is about to decide that will be ABANDONED: executed on A only
+	// (ExecuteBlock, never submitted), never shown to B or C.
+	rivalKinds := []string{"same-txs/other-timestamp", "same-txs/other-timestamp", "same-txs/other-consensus-data", "same-txs/other-timestamp-and-consensus-data", "permuted-txs", "subset-of-txs", "empty-block"}
+	rival := func(accepted []*types.Transaction, rr *vf.RNG) (string, *types.Block) {
+		kind := rivalKinds[rr.Intn(len(rivalKinds))]
+		if len(accepted) == 0 {
+			kind = "empty-block"
+		}
+		ts := chain.TimeAt(A.Ledger.GetCurrentBlockHeight() + 1) // what the committed block will carry
+		otherTime := func() {
+			// stays after the previous block (TimeAt steps by 10)
+			if d := uint32(rr.Intn(9) + 1); rr.Bool() {
+				ts += d
+			} else {
+				ts -= d
+			}
+		}
+		txs, cd := accepted, false
+		switch kind {
+		case "same-txs/other-timestamp":
+			otherTime()
+		case "same-txs/other-consensus-data":
+			cd = true
+		case "same-txs/other-timestamp-and-consensus-data":
+			otherTime()
+			cd = true
+		case "permuted-txs":
+			txs = nil
+			for _, i := range rr.Perm(len(accepted)) {
+				txs = append(txs, accepted[i])
+			}
+			if rr.Bool() {
+				otherTime()
+			}
+		case "subset-of-txs":
+			txs = nil
+			drop := rr.Intn(len(accepted)) // at least this one is missing
+			for i, t := range accepted {
+				if i != drop && rr.Chance(60) {
+					txs = append(txs, t)
+				}
+			}
+			if rr.Bool() {
+				otherTime()
+			}
+		case "empty-block":
+			txs = nil
+			if rr.Bool() {
+				otherTime()
+			}
+		}
+		blk, err := A.MakeBlock(txs, ts)
+		if err != nil {
+			panic(err)
+		}
+		if cd {
+			blk.Header.ConsensusData ^= rr.U64() | 1
+			if err := A.Seal(blk); err != nil {
+				panic(err)
+			}
+		}
+		return kind, blk
+	}
+	var rivalSamples []interface{}
+
+	// watch: tx hash -> counter name, counted when the transaction succeeds in the committed block on A
+	commit := func(h int, txs []*types.Transaction, label string, rr *vf.RNG, watch map[common.Uint256]string) bool {
 		// consensus member: every tx passes the validator first (this sets the signer accounts)
 		var accepted []*types.Transaction
 		for _, tx := range txs {
@@ -268,6 +424,33 @@ func main() {
 			}
 			accepted = append(accepted, tx)
 		}
+		// in a seeded fraction of the rounds A first executes one or two proposals of this height that are then abandoned
+		nRivals, lateRival := 0, false
+		if rr.Chance(65) {
+			nRivals = 1 + rr.Intn(2)
+			lateRival = rr.Chance(40)
+		}
+		lastKind := ""
+		var lastRes store.ExecuteResult
+		var lastErr error
+		var sched, rivalHex []string
+		for i := 0; i < nRivals; i++ {
+			kind, rb := rival(accepted, rr)
+			lastKind = kind
+			lastRes, lastErr = A.Ledger.ExecuteBlock(rb)
+			if lastErr != nil {
+				r.Count("rival_block_level_error") // e.g. EVM nonces out of order in a permutation / subset
+			}
+			r.Count("rival_executed/" + kind)
+			sched = append(sched, fmt.Sprintf("%s ts=%d cd=%x txs=%d", kind, rb.Header.Timestamp, rb.Header.ConsensusData, len(rb.Transactions)))
+			rivalHex = append(rivalHex, vf.HexTrunc(rb.ToArray(), 6000))
+		}
+		if nRivals > 0 {
+			r.Count("rounds_with_abandoned_proposals")
+			r.Count("last_rival_before_committed_block/" + lastKind)
+		} else {
+			r.Count("rounds_without_abandoned_proposals")
+		}
 		blk, err := A.MakeBlock(accepted, 0)
 		if err != nil {
 			panic(err)
@@ -276,6 +459,24 @@ func main() {
 		if err != nil {
 			r.Count("block_level_error_on_A")
 			return false
+		}
+		if nRivals > 0 && strings.HasPrefix(lastKind, "same-txs/") && lastErr == nil && (lastRes.Hash != res.Hash || lastRes.MerkleRoot != res.MerkleRoot) {
+			// sensitivity of the workload (no verdict): the abandoned proposal with the same transactions and another
+			// header had ANOTHER write set, so a node that reused its result would be seen
+			r.Count("rival_with_same_txs_had_another_result")
+		}
+		if lateRival {
+			// one more abandoned proposal BETWEEN the executions of the block that is committed
+			kind, rb := rival(accepted, rr)
+			if _, err := A.Ledger.ExecuteBlock(rb); err != nil {
+				r.Count("rival_block_level_error")
+			}
+			r.Count("rival_executed_between_reexecutions/" + kind)
+			sched = append(sched, "between re-executions: "+kind)
+			rivalHex = append(rivalHex, vf.HexTrunc(rb.ToArray(), 6000))
+		}
+		if nRivals > 0 && len(rivalSamples) < 4 {
+			rivalSamples = append(rivalSamples, map[string]interface{}{"height": blk.Header.Height, "committed_ts": blk.Header.Timestamp, "abandoned": sched})
 		}
 		// determinism of repeated execution in one process
 		n0, _ := json.Marshal(res.Notify)
@@ -295,6 +496,9 @@ func main() {
 		raw := blk.ToArray()
 		fmt.Fprintf(bf, "%s %s\n", hex.EncodeToString(raw), res.MerkleRoot.ToHexString())
 		id := map[string]interface{}{"height": h, "label": label, "block_hex": vf.HexTrunc(raw, 6000)}
+		if len(sched) > 0 {
+			id["abandoned_proposals_executed_on_A_only"], id["abandoned_block_hex"] = sched, rivalHex
+		}
 		ns := 0
 		for _, n := range res.Notify {
 			if n.State == 1 {
@@ -302,6 +506,11 @@ func main() {
 			}
 		}
 		id["tx_success"], id["tx_total"] = ns, len(res.Notify)
+		for _, n := range res.Notify {
+			if name, ok := watch[n.TxHash]; ok && n.State == 1 {
+				r.Count(name)
+			}
+		}
 		fp := fmt.Sprintf("%s/%d", label, h)
 		r.Eval(fp)
 		// syncing node: bytes -> decode -> AddBlock
@@ -340,8 +549,30 @@ func main() {
 		t2, _ := w.TB.TransferTx("ong", w.BK, v.addr, 1000000000000, 0, 20000)
 		txs = append(txs, t1, t2)
 	}
-	commit(1, txs, "funding")
-	L := vf.N(2, 14) // rounds over all variants
+	payer := feePayer()
+	tp, _ := w.TB.TransferTx("ong", w.BK, payer.addr, 1000000000000000, 0, 20000)
+	clock := clockCode()
+	clockAddr := common.AddressFromVmCode(clock)
+	dm, err := w.TB.Deploy(0, 30000000, clock, "clock")
+	if err != nil {
+		panic(err)
+	}
+	chain.Sign(dm, w.BK)
+	txs = append(txs, tp, chain.Immutable(dm))
+	commit(1, txs, "funding", rng.Sub(1).Sub(0xab), nil)
+	// authorise signs mt with the variant (and the fee payer's set, in seeded order, for the payer-other variants)
+	authorise := func(mt *types.MutableTransaction, v variant, sub *vf.RNG) (*types.Transaction, error) {
+		mt.Payer = v.addr
+		signers := []variant{v}
+		if v.payerOther {
+			mt.Payer = payer.addr
+			if signers = []variant{payer, v}; sub.Bool() {
+				signers = []variant{v, payer}
+			}
+		}
+		return signedTx(mt, signers, sub)
+	}
+	L := vf.N(2, 50) // rounds over all variants (thorough: ~1300 blocks)
 	h := 1
 	for round := 0; round < L; round++ {
 		for vi, v := range variants {
@@ -361,14 +592,37 @@ func main() {
 			if err != nil {
 				panic(err)
 			}
-			mt.Payer = v.addr
-			vtx, err := signedTx(mt, []variant{v}, sub)
+			vtx, err := authorise(mt, v, sub)
 			if err != nil {
 				r.Count("variant_not_decodable/" + v.name)
 				continue
 			}
-			pos := sub.Intn(len(txs) + 1)
-			txs = append(txs[:pos], append([]*types.Transaction{vtx}, txs[pos:]...)...)
+			insert := func(t *types.Transaction) {
+				pos := sub.Intn(len(txs) + 1)
+				txs = append(txs[:pos:pos], append([]*types.Transaction{t}, txs[pos:]...)...)
+			}
+			insert(vtx)
+			class := "plain"
+			if v.surplus > 0 {
+				class = "surplus-signatures/" + payerName(v.payerOther)
+			}
+			watch := map[common.Uint256]string{vtx.Hash(): "variant_spend_succeeded/" + class}
+			// every block carries transactions whose effect is a function of the block header: an ONT transfer between
+			// two holders (the ONG unbound so far depends on the block time) and a call of the clock contract (time,
+			// height, current block hash -> storage + notify); ample gas so that no gas schedule makes them fail
+			fi := sub.Intn(len(w.Accts))
+			ti := (fi + 1 + sub.Intn(len(w.Accts)-1)) % len(w.Accts)
+			ot, err := w.TB.TransferTx("ont", w.Accts[fi], w.Accts[ti].Address, uint64(sub.Intn(3)+1), 0, 100000000)
+			if err != nil {
+				panic(err)
+			}
+			cm := w.TB.Invoke(0, 100000000, chain.NewAsm().AppCall(clockAddr).Bytes())
+			chain.Sign(cm, w.Accts[sub.Intn(len(w.Accts))])
+			ct := chain.Immutable(cm)
+			insert(ot)
+			insert(ct)
+			watch[ot.Hash()] = "time_dependent_ont_transfer_succeeded"
+			watch[ct.Hash()] = "clock_contract_call_succeeded"
 			// witness probe authorised by the same variant: CheckWitness over a list of accounts (zero address,
 			// token contracts, this and another variant's account, an ordinary account, a random one), each
 			// answer notified, plus an approve whose `from` is the zero address (needs only its witness)
@@ -379,14 +633,12 @@ func main() {
 				pa.Push(a[:]).Syscall("System.Runtime.CheckWitness").Syscall("System.Runtime.Notify")
 			}
 			pm := w.TB.Invoke(0, 60000, pa.Bytes())
-			pm.Payer = v.addr
-			if ptx, err := signedTx(pm, []variant{v}, sub); err == nil {
+			if ptx, err := authorise(pm, v, sub); err == nil {
 				txs = append(txs, ptx)
 				r.Count("witness_probe_txs")
 			}
 			zm, _ := w.TB.Native(0, 30000, nutils.OntContractAddress, "approve", []interface{}{&ont.TransferState{From: common.Address{}, To: sink, Value: 7}})
-			zm.Payer = v.addr
-			if ztx, err := signedTx(zm, []variant{v}, sub); err == nil {
+			if ztx, err := authorise(zm, v, sub); err == nil {
 				txs = append(txs, ztx)
 			}
 			// every few blocks the on-chain gas schedule changes (global params: setGlobalParam + createSnapshot
@@ -402,7 +654,7 @@ func main() {
 				r.Count("gas_schedule_changes")
 			}
 			before := r.Counter("validator_rejected/" + v.name)
-			commit(h, txs, v.name)
+			commit(h, txs, v.name, sub.Sub(0xab), watch)
 			if r.Counter("validator_rejected/"+v.name) == before {
 				r.Count("variant_accepted_by_validator/" + v.name)
 			}
@@ -450,6 +702,24 @@ func main() {
 		r.Require("variant_accepted_by_validator/"+v.name, 1)
 	}
 	r.Sample(map[string]interface{}{"variants": names, "blocks": len(fpsA)})
+	for _, rs := range rivalSamples {
+		r.Sample(rs)
+	}
+	// abandoned proposals on the consensus node
+	r.Require("rounds_with_abandoned_proposals", 10)
+	r.Require("rounds_without_abandoned_proposals", 3)
+	for _, k := range []string{"same-txs/other-timestamp", "same-txs/other-consensus-data", "same-txs/other-timestamp-and-consensus-data", "permuted-txs", "subset-of-txs", "empty-block"} {
+		r.Require("rival_executed/"+k, 1)
+	}
+	r.Require("last_rival_before_committed_block/same-txs/other-timestamp", 2)
+	r.Require("rival_with_same_txs_had_another_result", 4)
+	// header-dependent transactions really took effect
+	r.Require("time_dependent_ont_transfer_succeeded", 10)
+	r.Require("clock_contract_call_succeeded", 10)
+	// spends authorised by signature sets with surplus signatures really took effect
+	r.Require("variant_spend_succeeded/plain", 5)
+	r.Require("variant_spend_succeeded/surplus-signatures/payer-other", 4)
+	r.Require("variant_spend_succeeded/surplus-signatures/payer-self", 3)
 	r.Require("sync_node_agrees", 10)
 	r.Require("witness_probe_txs", 10)
 	r.Require("gas_schedule_changes", 2)
